@@ -67,6 +67,9 @@ _ds("C15", "Merge programs on the three custom data source types and three targe
 _ds("C10", "dispatch_apply on seven queue kinds, n in {0,1,2,3,5}, 1-3 CPUs, nested; oracle: every index in 0..n-1 exactly once and no other, return after every iteration's end, sequential in index order on a "
     "serial hierarchy, a racing barrier never overlaps an iteration on a concurrent queue.", "DESIGN.md §4 C10")
 
+_ds("C19", "Block-object scenarios; oracle: body at most once and exactly once unless cancelled, never after a cancel that preceded the submission, a started body always finishes; wait()=0 only after the body's end "
+    "(or the submission, if skipped), non-zero only after the full virtual timeout; every notification exactly once and not before completion; testcancel true after cancel returned; no trap/ASan on any schedule.", "DESIGN.md §4 C19")
+
 NOT_YET = {}
 
 def main():
